@@ -464,7 +464,12 @@ func ToPairAlign(samIn, ref io.Reader, outpath string, wrap int, trimStart int, 
 
 	go groupSamRecords(samIn, cSH, cSR, cReadDone, cErr)
 
-	_ = <-cSH
+	// wait for the header, or for the error if the sam file could not be read at all
+	select {
+	case err := <-cErr:
+		return err
+	case <-cSH:
+	}
 
 	go writePairwiseAlignment(outpath, wrap, cPairTrim, cWriteDone, cErr, omitRef)
 
